@@ -879,6 +879,8 @@ def div_lr_obj(lr, lrtype):
         return int(lr)
     if lrtype == "np.int64":
         return np.int64(lr)
+    if lrtype in ("np.int32", "np.uint8", "np.intp"):
+        return getattr(np, lrtype[3:])(lr)
     if lrtype == "none":
         return None
     raise KeyError(lrtype)
@@ -1336,6 +1338,8 @@ def div_spec(fam, name, n, v, *, etype="c128", partition=None, ptype="list", lr=
             hh += "[" + host["register"] + "]"
     key = (f"div:{fam}:{name}:n={n}:{etype}:P={'-' if part is None else ','.join(map(str, part))}/{ptype}:lr={lr}/{lrtype}:"
            f"opts={kk}:{iso or '-'}/{uni or '-'}/{svd or '-'}:{call}{hh}")
+    if label == "":
+        key += ":label=''"
     if second is not None:
         key += f":then-lr={second.get('lr')}:P={','.join(map(str, second.get('partition') or []))}"
     return {"div": True, "repo": framework.REPO, "fam": fam, "name": name, "n": int(n), "key": key,
@@ -1745,6 +1749,84 @@ def div_sizes(ctx):
     return out
 
 
+# ---- family 6: valid falsy values and numpy integers of the options ----------------------------------------------------
+
+def div_flagforms(ctx):
+    """LowRankInitialize has no boolean option; its options with a VALID FALSY value are lr = 0 ("full rank"), a partition that
+    consists of qubit 0 only ([0], (0,), ndarray [0]: `not partition` is true for the one-element ndarray, and qubit index 0 is
+    falsy itself) and label '' (given, but falsy).  Each in every numeric / container form, next to a non-zero one, through the
+    constructor (keyword and positional), the static helper (keyword and positional) and copy / inverse (label); lr as Python
+    int and numpy integers of three widths at both ends of its range (0, 2^(n//2)) and in the middle; svd in each documented
+    spelling.  Judged by the family's oracle (independent truncation, fidelity, spectrum) and tied (plan) with the canonical
+    values."""
+    from props import c09
+    rng = ctx.nprng()
+    out = []
+
+    def add(name, n, v, call, host, counters, **kw):
+        out.append(div_spec("flagforms", name, n, v, call=call, host=host, **kw))
+        for c in counters:
+            ctx.count(f"flagforms:{c}:via {call}")
+            ctx.count(f"flagforms:{c}")
+
+    def entries(n, j):
+        ents = [("ctor", None), ("ctor-positional", None), ("ctor-kw", None), ("static", host_perm(ctx, n)),
+                ("static-positional", host_perm(ctx, n, ctx.rng.choice(["ints", "qubits", "tuple"]))), ("static", host_none(ctx, n)),
+                ("static-positional", host_none(ctx, n))]
+        return [ents[(j + i) % len(ents)] for i in range(3)] if j is not None else ents
+    # lr: 0 / middle / top of the range, each numeric form, rank-4 and rank-3 states across a 2+2 partition; rank-2 states at n = 3
+    j = ctx.rng.randrange(7)
+    for n, part, spectra in ((4, ctx.rng.choice([[0, 2], [1, 3], [0, 3]]), ([0.7, 0.5, 0.4, 0.3], [0.8, 0.5, 0.3])),
+                             (3, ctx.rng.choice([[1], [0, 2], [2]]), ([0.8, 0.6],)), (5, [0, 3], ([0.7, 0.5, 0.4, 0.3],))):
+        for si, spec_ in enumerate(spectra):
+            v = c09.with_spectrum(rng, n, part, spec_)
+            top = 2 ** (n // 2)
+            for lr in sorted({0, 1, top // 2, top}):
+                for lt in ("int", "np.int64", "np.int32", "np.uint8"):
+                    j += 1
+                    for call, host in (entries(n, j) if n < 5 else entries(n, j)[:1]):
+                        add(f"lr-rank{len(spec_)}", n, v, call, host, [f"lr:{lt}:{'0' if lr == 0 else 'top' if lr == top else 'middle'}"],
+                            partition=part, lr=lr, lrtype=lt, keys=("lr", "partition") if j % 2 else ("partition", "lr"))
+    # lr = 0 / None / absent as the ONLY key, and with every other key at a non-default value
+    for n in (2, 4):
+        v = c09.rand_unit(rng, 2 ** n)
+        nd = div_nondefault_partition(ctx, n)
+        for lt in ("int", "np.int64", "np.uint8", "none"):
+            for call, host in entries(n, None):
+                add("lr0-only", n, v, call, host, [f"lr:{lt}:0-only-key"], keys=("lr",), lr=0, lrtype=lt)
+            j += 1
+            for call, host in entries(n, j):
+                add("lr0-all-keys", n, v, call, host, [f"lr:{lt}:0-with-all-keys"], keys=DIV_KEYS_ALL, lr=0, lrtype=lt, partition=nd, iso="knill",
+                    uni="csd", svd="regular")
+    # partition = qubit 0 only (not the default for n >= 3), every container; next to [n-1] and [0, n-1]
+    for n in (3, 4):
+        v = c09.rand_unit(rng, 2 ** n)
+        for part in ([0], [n - 1], [0, n - 1]):
+            for ptype in ("list", "tuple", "ndarray", "npints", "range") if len(part) == 1 else ("ndarray", "tuple"):
+                for lr in (0, 1):
+                    j += 1
+                    for call, host in entries(n, j):
+                        add("partition-" + "".join(map(str, part)), n, v, call, host,
+                            [f"partition:{ptype}:{'qubit-0-only' if part == [0] else 'last-qubit-only' if len(part) == 1 else 'both-ends'}"],
+                            partition=part, ptype=ptype, lr=lr, keys=("partition",) if lr == 0 else ("lr", "partition"))
+    # label '' (given, falsy) next to a non-empty one and None
+    for n in (2, 3):
+        v = c09.rand_unit(rng, 2 ** n)
+        for label in ("", "L", None):
+            for call, host in (("ctor-positional", None), ("ctor-kw", None), ("copy", host_perm(ctx, n)), ("inverse", host_perm(ctx, n))):
+                for kw in (dict(keys=None), dict(keys=("lr", "partition"), lr=1, partition=[n - 1])):
+                    add(f"label-{label!r}", n, v, call, host, ["label:" + repr(label)], label=label, **kw)
+    # svd: every documented spelling below the size where 'auto' switches (the randomized one is C09's / the probes')
+    for n in (3, 4):
+        v = c09.rand_unit(rng, 2 ** n)
+        for svd in ("auto", "regular", None):
+            for lr in (0, 1):
+                j += 1
+                for call, host in entries(n, j)[:2]:
+                    add("svd", n, v, call, host, [f"svd:{svd!r}"], keys=("svd", "lr"), lr=lr, svd=svd)
+    return out
+
+
 # ---- driver ---------------------------------------------------------------------------------------------------------
 
 DIV_TIE_CALLS = ("ctor", "ctor-positional", "ctor-kw", "ctor-bare", "static", "static-positional", "static-bare", "copy", "reuse")
@@ -1804,7 +1886,8 @@ def div_report(ctx, spec, problems, info):
 def run_diversity(ctx, tie=True):
     from concurrent.futures import ProcessPoolExecutor
     import multiprocessing as mp
-    specs = div_types(ctx) + div_partition(ctx) + div_lr(ctx) + div_scale(ctx) + div_phase(ctx) + div_calls(ctx) + div_sizes(ctx)
+    specs = div_types(ctx) + div_partition(ctx) + div_lr(ctx) + div_scale(ctx) + div_phase(ctx) + div_calls(ctx) + div_sizes(ctx) + \
+        div_flagforms(ctx)
     seen, uniq = set(), []
     for s in specs:
         if s["key"] not in seen:
